@@ -13,7 +13,9 @@ EXPLANATION = (
     "patch is attempted: the sequential file-patch loop has no exit other than exhaustion and error propagation, the parallel "
     "worker stops only strictly past the earliest broken index; (R4) the sequential driver writes rejects only when some file "
     "patch failed; (R5) the reject is produced by the same header and hunk writers as a full patch (so C12's keyword agreement "
-    "covers it). Not decided: line content and numbers inside the reject (writer arithmetic, see C12)."
+    "covers it); (R6) completeness of the reject loop: once an entry's report is known failed, the next "
+    "entry is reached only through the reject writer or through the NotFound answer of creating that very reject (the documented "
+    "'directory does not exist' bypass). Not decided: line content and numbers inside the reject (writer arithmetic, see C12)."
 )
 LEVEL_NOTE = "Undecided: exact content/line numbers of the written hunks; existence of the .rej when its directory is missing is by design skipped."
 
@@ -89,6 +91,41 @@ def run(ck):
         ck.require(oki, "C13-R1", "reject only for the rejected patch",
                    "the reject file is created without a dominating test index >= rejected_patch_index (rejects for earlier patches)", rej.where(t))
     # the loop is LIFO with early exit on a smaller index: C04-R3 covers the order
+
+    # ---- R6: completeness of the reject loop ------------------------------------------------------------
+    # Once an entry of the rejected patch is known to have failed hunks, the next iteration (and the normal end of the loop) is
+    # reached only through the reject writer, or through the NotFound arm of the *creation* of that reject (missing directory).
+    heads = list(cfg.loops(rej).keys())
+    fail_edges = []
+    for g in guards.find_bool_guards(rej, lambda x: df.is_call(x, "FilePatchApplyReport::failed")):
+        fail_edges.append(g["true_edge"])
+    for g in guards.find_bool_guards(rej, lambda x: df.is_call(x, "FilePatchApplyReport::ok")):
+        fail_edges.append(g["false_edge"])
+    wr_blocks = {bb for bb, t in rej.calls() if (callee_of(t).get("rpath") or "").endswith("write_rej_to") and not rej.blocks[bb]["cleanup"]}
+    ck.floor("C13-R6", "calls of the reject writer in rollback_and_save_rej_files", len(wr_blocks), 1)
+    nf_edges = set()
+    for g in guards.find_bool_guards(rej, lambda x: df.is_call(x, "PartialEq>::eq") and len(x[2]) == 2):
+        a, b = g["expr"][2]
+        kinds = [x for x in (a, b) if df.is_call(x, "io::error::Error::kind")]
+        consts = [guards.promoted_value(rej, x) for x in (a, b)]
+        if not kinds or not any(pv and pv[0] == "enum" and pv[2] == "NotFound" for pv in consts):
+            continue
+        src = kinds[0][2][0]
+        from_create = df.mentions(src, lambda x: isinstance(x, tuple) and x[0] == "downcast" and x[2] == "Err" and
+                                  (df.is_call(x[1], "fs::File::create") or df.is_call(x[1], "OpenOptions::open") or df.is_call(x[1], "File::create_new")))
+        if from_create:
+            nf_edges.add(g["true_edge"])
+    if ck.require(len(heads) == 1 and fail_edges, "C13-R6", "reject loop and its failed() test found",
+                  "%d loops, %d tests of the report in rollback_and_save_rej_files" % (len(heads), len(fail_edges)), rej.where()):
+        head = heads[0]
+        starts = [e[1] for e in fail_edges]
+        r = cfg.reachable(rej, starts, disabled=nf_edges, blocked=wr_blocks)
+        okc = head not in r
+        ck.require(okc, "C13-R6", "every failed file patch of the rejected patch gets its reject written",
+                   "after the report was found failed the loop can move on to the next entry without calling the reject writer, by a path "
+                   "other than the NotFound answer of creating the reject (a reject is skipped although its directory may exist)", rej.where(),
+                   ok_detail="from the failed() edge the loop head is reachable only through write_rej_to or through %d NotFound edge(s) of the "
+                             "reject's own creation" % len(nf_edges))
 
     # ---- R2 ------------------------------------------------------------------------------------------
     hw = [(bb, t) for bb, t in wr.calls() if (callee_of(t).get("rpath") or "").endswith("UnifiedPatchHunkWriter>::write_to")]
